@@ -13,6 +13,9 @@ import (
 	"fmt"
 	"math/rand"
 	"os"
+	"sort"
+	"sync"
+	"sync/atomic"
 	"time"
 
 	"github.com/scionproto/scion/control/beacon"
@@ -143,6 +146,15 @@ type runner struct {
 	n    int
 	uses int
 	tx   pathdb.Transaction // open path-DB transaction (all operations go through it)
+	emit func(vt.M)         // nil: write to w
+}
+
+func (r *runner) out(ev vt.M) {
+	if r.emit != nil {
+		r.emit(ev)
+		return
+	}
+	r.w.Emit(ev)
 }
 
 // rw is what path-DB operations are executed on: the open transaction, else the backend.
@@ -239,7 +251,6 @@ func errStr(err error) int {
 func (r *runner) exec(s step) {
 	ctx := context.Background()
 	op, _ := s["op"].(string)
-	r.n++
 	switch op {
 	case "pins":
 		p := geti(s, "p")
@@ -258,7 +269,7 @@ func (r *runner) exec(s step) {
 			}
 			st, err = r.rw().InsertWithHPGroupIDs(ctx, meta, real)
 		}
-		r.w.Emit(vt.M{"ev": "pins", "p": p, "type": typ, "groups": groups, "ins": st.Inserted,
+		r.out(vt.M{"ev": "pins", "p": p, "type": typ, "groups": groups, "ins": st.Inserted,
 			"upd": st.Updated, "err": errStr(err)})
 	case "pget":
 		f := getm(s, "f")
@@ -307,20 +318,20 @@ func (r *runner) exec(s step) {
 			}
 			out = append(out, vt.M{"p": r.pool.Index(x.Seg), "type": int(x.Type), "groups": gs})
 		}
-		r.w.Emit(vt.M{"ev": "pget", "f": vt.M{"ids": absIDs, "types": getl(f, "types"),
+		r.out(vt.M{"ev": "pget", "f": vt.M{"ids": absIDs, "types": getl(f, "types"),
 			"groups": getl(f, "groups"), "intfs": getll(f, "intfs"), "starts": getl(f, "starts"),
 			"ends": getl(f, "ends")}, "res": out, "err": errStr(err)})
 	case "pdel":
 		hexs, abs := r.prefix(geti(s, "of"), geti(s, "len"))
 		err := r.rw().DeleteSegment(ctx, hexs)
-		r.w.Emit(vt.M{"ev": "pdel", "pre": abs, "err": errStr(err)})
+		r.out(vt.M{"ev": "pdel", "pre": abs, "err": errStr(err)})
 	case "pexp":
 		n, err := r.rw().DeleteExpired(ctx, at(geti(s, "now")))
-		r.w.Emit(vt.M{"ev": "pexp", "now": geti(s, "now"), "ret": n, "err": errStr(err)})
+		r.out(vt.M{"ev": "pexp", "now": geti(s, "now"), "ret": n, "err": errStr(err)})
 	case "nqins":
 		t := segpool.Base.Add(time.Duration(geti(s, "t")) * time.Millisecond)
 		ok, err := r.rw().InsertNextQuery(ctx, segpool.IA(geti(s, "src")), segpool.IA(geti(s, "dst")), t)
-		r.w.Emit(vt.M{"ev": "nqins", "src": geti(s, "src"), "dst": geti(s, "dst"), "t": geti(s, "t"),
+		r.out(vt.M{"ev": "nqins", "src": geti(s, "src"), "dst": geti(s, "dst"), "t": geti(s, "t"),
 			"ret": ok, "err": errStr(err)})
 	case "nqget":
 		t, err := r.rw().GetNextQuery(ctx, segpool.IA(geti(s, "src")), segpool.IA(geti(s, "dst")))
@@ -332,7 +343,7 @@ func (r *runner) exec(s step) {
 				abs = -1 // not a value this driver ever stored
 			}
 		}
-		r.w.Emit(vt.M{"ev": "nqget", "src": geti(s, "src"), "dst": geti(s, "dst"), "has": has, "t": abs,
+		r.out(vt.M{"ev": "nqget", "src": geti(s, "src"), "dst": geti(s, "dst"), "has": has, "t": abs,
 			"err": errStr(err)})
 
 	case "txb":
@@ -340,7 +351,7 @@ func (r *runner) exec(s step) {
 		if err == nil {
 			r.tx = tx
 		}
-		r.w.Emit(vt.M{"ev": "txb", "err": errStr(err)})
+		r.out(vt.M{"ev": "txb", "err": errStr(err)})
 	case "txc", "txr":
 		var err error
 		if r.tx == nil {
@@ -352,13 +363,13 @@ func (r *runner) exec(s step) {
 			err = r.tx.Rollback()
 		}
 		r.tx = nil
-		r.w.Emit(vt.M{"ev": op, "err": errStr(err)})
+		r.out(vt.M{"ev": op, "err": errStr(err)})
 
 	case "bins":
 		p := geti(s, "p")
 		st, err := r.bdb.InsertBeacon(ctx, beacon.Beacon{Segment: r.pool.Segs[p-1],
 			InIfID: uint16(geti(s, "inIf"))}, usageMask(getl(s, "usage")))
-		r.w.Emit(vt.M{"ev": "bins", "p": p, "inIf": geti(s, "inIf"), "usage": getl(s, "usage"),
+		r.out(vt.M{"ev": "bins", "p": p, "inIf": geti(s, "inIf"), "usage": getl(s, "usage"),
 			"ins": st.Inserted, "upd": st.Updated, "flt": st.Filtered, "err": errStr(err)})
 	case "bcand":
 		res, err := r.bdb.CandidateBeacons(ctx, geti(s, "n"), usageMask(getl(s, "usage")),
@@ -367,7 +378,7 @@ func (r *runner) exec(s step) {
 		for _, b := range res {
 			out = append(out, vt.M{"p": r.pool.Index(b.Segment), "inIf": int(b.InIfID)})
 		}
-		r.w.Emit(vt.M{"ev": "bcand", "n": geti(s, "n"), "usage": getl(s, "usage"), "src": geti(s, "src"),
+		r.out(vt.M{"ev": "bcand", "n": geti(s, "n"), "usage": getl(s, "usage"), "src": geti(s, "src"),
 			"res": out, "err": errStr(err)})
 	case "bget":
 		f := getm(s, "f")
@@ -402,7 +413,7 @@ func (r *runner) exec(s step) {
 			out = append(out, vt.M{"p": r.pool.Index(b.Beacon.Segment), "inIf": int(b.Beacon.InIfID),
 				"usage": usageBits(b.Usage)})
 		}
-		r.w.Emit(vt.M{"ev": "bget", "f": vt.M{"ids": absIDs, "starts": getl(f, "starts"),
+		r.out(vt.M{"ev": "bget", "f": vt.M{"ids": absIDs, "starts": getl(f, "starts"),
 			"inIfs": getl(f, "inIfs"), "usages": getll(f, "usages"), "hasValid": geti(f, "hasValid") == 1,
 			"valid": geti(f, "valid")}, "res": out, "err": errStr(err)})
 	case "bsrc":
@@ -411,14 +422,14 @@ func (r *runner) exec(s step) {
 		for _, ia := range res {
 			out = append(out, segpool.AbsIA(ia))
 		}
-		r.w.Emit(vt.M{"ev": "bsrc", "res": out, "err": errStr(err)})
+		r.out(vt.M{"ev": "bsrc", "res": out, "err": errStr(err)})
 	case "bdel":
 		hexs, abs := r.prefix(geti(s, "of"), geti(s, "len"))
 		err := r.bdb.DeleteBeacon(ctx, hexs)
-		r.w.Emit(vt.M{"ev": "bdel", "pre": abs, "err": errStr(err)})
+		r.out(vt.M{"ev": "bdel", "pre": abs, "err": errStr(err)})
 	case "bexp":
 		n, err := r.bdb.DeleteExpiredBeacons(ctx, at(geti(s, "now")))
-		r.w.Emit(vt.M{"ev": "bexp", "now": geti(s, "now"), "ret": n, "err": errStr(err)})
+		r.out(vt.M{"ev": "bexp", "now": geti(s, "now"), "ret": n, "err": errStr(err)})
 	default:
 		vt.Fatal("unknown op %q", op)
 	}
@@ -725,6 +736,148 @@ func find() {
 }
 
 // ---------------------------------------------------------------------------------------------
+// concurrent callers: 2-3 goroutines issue calls on one file-based database; every completed call is
+// logged with invocation / response stamps from a global atomic counter
+
+func concurrent(w *vt.Writer, kind string, n int, seed int64) int {
+	ctx := context.Background()
+	_ = ctx
+	pool := segpool.NewPool(bigPool(kind)[:10])
+	rng := vt.Rand(seed)
+	for h := 0; h < n; h++ {
+		dbSeq++
+		file := fmt.Sprintf("conc_%d_%d.sqlite", os.Getpid(), dbSeq)
+		base := &runner{w: w, kind: kind, pool: pool}
+		var err error
+		if kind == "p" {
+			base.pdb, err = pathsqlite.New(file, nil)
+		} else {
+			base.bdb, err = beaconsqlite.New(file, segpool.IA(13), nil)
+		}
+		if err != nil {
+			vt.Fatal("open file db: %v", err)
+		}
+		var clock int64
+		var mu sync.Mutex
+		calls := []vt.M{}
+		ng := 2 + rng.Intn(2)
+		if h%3 != 0 {
+			ng = 3 + rng.Intn(2)
+		}
+		plans := make([][]step, ng)
+		// two of three histories are contended: all callers insert versions of ONE segment id (equal,
+		// older and newer ones) and look at the result - the read-check-write of an insert is the
+		// critical section of both databases
+		contended := h%3 != 0
+		g0 := &gen{rng: rng, pool: pool}
+		sameID := []int{}
+		if contended {
+			id := fmt.Sprint(pool.Descs[rng.Intn(len(pool.Descs))].ID)
+			for i, d := range pool.Descs {
+				if fmt.Sprint(d.ID) == id {
+					sameID = append(sameID, i+1)
+				}
+			}
+		}
+		for c := range plans {
+			for k := 0; k < 2+rng.Intn(3); k++ {
+				var st step
+				g := &gen{rng: rng, pool: pool}
+				if contended {
+					st = g.mutator(kind)
+					for st["op"] != kind+"ins" {
+						st = g.mutator(kind)
+					}
+					st["p"] = sameID[rng.Intn(len(sameID))]
+					if k > 0 && rng.Intn(4) == 0 {
+						st = fullObs(kind)[0]
+					}
+					plans[c] = append(plans[c], st)
+					continue
+				}
+				switch rng.Intn(4) {
+				case 0:
+					st = fullObs(kind)[0]
+				case 1:
+					st = step{"op": kind + "del", "of": 1 + rng.Intn(len(pool.Descs)), "len": 64}
+					if rng.Intn(3) == 0 {
+						st = step{"op": kind + "exp", "now": g.timePoint()}
+					}
+				default:
+					st = g.mutator(kind)
+					for st["op"] == "nqins" {
+						st = g.mutator(kind)
+					}
+				}
+				plans[c] = append(plans[c], st)
+			}
+		}
+		if contended {
+			// preamble (sequential): the oldest version is stored before the callers start
+			r := &runner{w: w, kind: kind, pool: pool, pdb: base.pdb, bdb: base.bdb}
+			inv := atomic.AddInt64(&clock, 1)
+			r.emit = func(ev vt.M) {
+				ev["c"], ev["ti"], ev["tr"] = 8, int(inv), int(atomic.AddInt64(&clock, 1))
+				calls = append(calls, ev)
+			}
+			st := g0.mutator(kind)
+			for st["op"] != kind+"ins" {
+				st = g0.mutator(kind)
+			}
+			st["p"] = sameID[0]
+			r.exec(st)
+		}
+		var wg sync.WaitGroup
+		start := make(chan struct{})
+		for c := range plans {
+			wg.Add(1)
+			go func(c int) {
+				defer wg.Done()
+				r := &runner{w: w, kind: kind, pool: pool, pdb: base.pdb, bdb: base.bdb}
+				<-start
+				for _, st := range plans[c] {
+					var inv int64
+					r.emit = func(ev vt.M) {
+						ret := atomic.AddInt64(&clock, 1)
+						ev["c"], ev["ti"], ev["tr"] = c, int(inv), int(ret)
+						mu.Lock()
+						calls = append(calls, ev)
+						mu.Unlock()
+					}
+					inv = atomic.AddInt64(&clock, 1)
+					r.exec(st)
+				}
+			}(c)
+		}
+		close(start)
+		wg.Wait()
+		{
+			// final state, after all callers are done
+			r := &runner{w: w, kind: kind, pool: pool, pdb: base.pdb, bdb: base.bdb}
+			inv := atomic.AddInt64(&clock, 1)
+			r.emit = func(ev vt.M) {
+				ev["c"], ev["ti"], ev["tr"] = 9, int(inv), int(atomic.AddInt64(&clock, 1))
+				calls = append(calls, ev)
+			}
+			r.exec(fullObs(kind)[0])
+		}
+		base.reallyClose()
+		for _, suf := range []string{"", "-wal", "-shm", "-journal"} {
+			os.Remove(file + suf)
+		}
+		sort.Slice(calls, func(i, j int) bool { return calls[i]["ti"].(int) < calls[j]["ti"].(int) })
+		js := pool.JSON()
+		for i := range js {
+			js[i]["id"] = cut(pool.Descs[i].ID)
+		}
+		w.Emit(vt.M{"ev": "reset", "kind": kind, "id": h, "src": "conc", "n": len(calls), "pool": js})
+		for _, c := range calls {
+			// every call record carries the same fields (TLC needs uniform records per event kind only)
+			w.Emit(c)
+		}
+	}
+	return n
+}
 
 func main() {
 	out := flag.String("out", "trace.ndjson", "output trace")
@@ -734,6 +887,7 @@ func main() {
 	nq := flag.Int("q", 3, "seeded queries appended to every TLC-generated history")
 	onlyKind := flag.String("kind", "", "restrict the random histories to one DB kind (p or b)")
 	obsAll := flag.Bool("obsall", false, "full query after every step of a TLC-generated history")
+	nconc := flag.Int("conc", 0, "concurrent mode: number of concurrent histories per DB kind (nothing else is run)")
 	doFind := flag.Bool("find", false, "search interface numbers for id-prefix relations and exit")
 	flag.Parse()
 	if *doFind {
@@ -742,6 +896,14 @@ func main() {
 	}
 	w := vt.NewWriter(*out)
 	ntr := 0
+	if *nconc > 0 {
+		for ki, kind := range []string{"p", "b"} {
+			ntr += concurrent(w, kind, *nconc, int64(2750+ki))
+		}
+		w.Close()
+		fmt.Printf("concurrent histories=%d events=%d\n", ntr, w.N)
+		return
+	}
 
 	// 1. TLC-generated histories
 	if *scn != "" {
